@@ -23,19 +23,15 @@ elif kind.startswith('clip'):
     res.update({'observed': out, 'recorded': case['out'], 'oracle': msg, 'fails': bool(msg) or out != case['out']})
 else:
     na, nv, nd, ni = [eval(x) for x in case['raw'][:4]]
-    lb = [unkey(k) for k in case['lb']]
-    ub = [unkey(k) for k in case['ub']]
-    try:
-        if case['kind'] == 'search':
-            c06.SearchSpace(n_agents=na, n_variables=nv, n_iterations=ni, lower_bound=lb, upper_bound=ub)
-        elif case['kind'] == 'hyper':
-            c06.HyperSpace(n_agents=na, n_variables=nv, n_dimensions=nd, n_iterations=ni, lower_bound=lb, upper_bound=ub)
-        else:
-            c06.TreeSpace(n_trees=na, n_terminals=2, n_variables=nv, n_iterations=ni, min_depth=1, max_depth=2,
-                          functions=['SUM'], lower_bound=lb, upper_bound=ub)
-        obs = 'accepted'
-    except Exception as ex:  # noqa: BLE001
-        obs = hlib.exc_kind(ex)
-    res.update({'observed': obs, 'recorded': case['res'].get('err', 'accepted'), 'oracle': case.get('oracle')})
-    res['fails'] = bool(case.get('oracle')) and obs == case['res'].get('err', 'accepted')
+    if len(case['raw']) >= 10:          # the bound lists with their original Python types
+        lb, ub = eval(case['raw'][8]), eval(case['raw'][9])
+    else:
+        lb = [unkey(k) for k in case['lb']]
+        ub = [unkey(k) for k in case['ub']]
+    import numpy as np
+    np.random.seed(0)
+    r2 = c06.ctor_build(case['kind'], na, nv, nd, ni, lb, ub)
+    msg = c06.ctor_oracle(case['kind'], na, nv, nd, ni, lb, ub, r2)
+    res.update({'observed': r2.get('err', 'accepted'), 'recorded': case['res'].get('err', 'accepted'), 'oracle': msg, 'recorded_oracle': case.get('oracle')})
+    res['fails'] = bool(msg)
 hlib.emit(res)
